@@ -14,20 +14,21 @@ Record case := mkCase {
   c_ops : list op;
   c_expect : list Z }.
 
-Fixpoint run_b (fee ef : Z) (p : bpool) (ops : list op) : list Z :=
+(* one chunk per operation: the error class, then the result values followed by the pool state *)
+Fixpoint run_b (fee ef : Z) (p : bpool) (ops : list op) : list (Z * list Z) :=
   match ops with
   | [] => []
   | o :: r => let '(code, vals, p') := if op_amounts_fit o then b_step fee ef p o else (e_overflow, repeat 0 (nres (b_n p) o), p) in
-              (code :: vals) ++ b_res p' ++ [b_shares p'] ++ run_b fee ef p' r
+              (code, vals ++ b_res p' ++ [b_shares p']) :: run_b fee ef p' r
   end.
-Fixpoint run_s (fee ef : Z) (p : spool) (ops : list op) : list Z :=
+Fixpoint run_s (fee ef : Z) (p : spool) (ops : list op) : list (Z * list Z) :=
   match ops with
   | [] => []
   | o :: r => let '(code, vals, p') := if op_amounts_fit o then s_step fee ef p o else (e_overflow, repeat 0 (nres (s_n p) o), p) in
-              (code :: vals) ++ s_res p' ++ [s_shares p'] ++ run_s fee ef p' r
+              (code, vals ++ s_res p' ++ [s_shares p']) :: run_s fee ef p' r
   end.
 
-Definition model_obs (c : case) : list Z :=
+Definition model_chunks (c : case) : list (Z * list Z) :=
   if c_kind c =? 0 then
     run_b (c_fee c) (c_exit_fee c)
           (mkB (c_amts c) (map (fun w => w * GuaranteedWeightPrecision) (c_par c)) (c_shares c)) (c_ops c)
@@ -35,4 +36,26 @@ Definition model_obs (c : case) : list Z :=
     run_s (c_fee c) (c_exit_fee c)
           (mkS (c_amts c) (map (fun s => s * ScalingFactorMultiplier) (c_par c)) (c_shares c)) (c_ops c).
 
-Definition case_ok (c : case) : bool := zlist_eqb (model_obs c) (c_expect c).
+Definition model_obs (c : case) : list Z := flat_map (fun ch => fst ch :: snd ch) (model_chunks c).
+
+(* Error classes are compared text-independently: the driver recognises failure texts only as a diagnostic; a failure whose
+   text it does not recognise is reported as the generic class e_generic_failure, which is compatible with ANY failure class the
+   model predicts for that operation.  Success versus failure, and every amount / reserve / share total, must agree exactly. *)
+Definition e_generic_failure : Z := 99.
+Definition code_compat (model impl : Z) : bool :=
+  (model =? impl) || ((impl =? e_generic_failure) && negb (model =? 0)).
+
+Fixpoint take_eq (l expect : list Z) : option (list Z) :=       (* expect must start with l; returns the rest *)
+  match l, expect with
+  | [], _ => Some expect
+  | x :: l', y :: e' => if x =? y then take_eq l' e' else None
+  | _ :: _, [] => None
+  end.
+Fixpoint chunks_compat (chunks : list (Z * list Z)) (expect : list Z) : bool :=
+  match chunks, expect with
+  | [], [] => true
+  | (code, l) :: r, c :: e => code_compat code c && match take_eq l e with Some e' => chunks_compat r e' | None => false end
+  | _, _ => false
+  end.
+
+Definition case_ok (c : case) : bool := chunks_compat (model_chunks c) (c_expect c).
